@@ -627,13 +627,49 @@ func vRunAppTo(inv vInvocation, stdoutOverride *os.File) (res vRun) {
 				res.Failed = true
 			}
 		}()
-		err := GetApp().Run(append([]string{"hranoprovod-cli"}, inv.Args...))
+		app := GetApp()
+		// urfave/cli keeps its help commands in package-level variables and
+		// mutates them when they run (`help help` makes the help command its own
+		// sub-command). A real process runs one invocation and exits; here many
+		// invocations share the process, so that library state is reset around
+		// every run.
+		defer vResetCLIGlobals(app)
+		vResetKnownHelp()
+		err := app.Run(append([]string{"hranoprovod-cli"}, inv.Args...))
 		if err != nil {
 			res.Err = err.Error()
 			res.Failed = true
 		}
 	}()
 	return res
+}
+
+var vHelpCmds = map[*cli.Command]bool{}
+
+func vResetKnownHelp() {
+	for c := range vHelpCmds {
+		c.Subcommands = nil
+		c.Flags = nil
+	}
+}
+
+func vResetCLIGlobals(app *cli.App) {
+	seen := map[*cli.Command]bool{}
+	var walk func(cs []*cli.Command)
+	walk = func(cs []*cli.Command) {
+		for _, c := range cs {
+			if c == nil || seen[c] {
+				continue
+			}
+			seen[c] = true
+			if c.Name == "help" {
+				vHelpCmds[c] = true
+			}
+			walk(c.Subcommands)
+		}
+	}
+	walk(app.Commands)
+	vResetKnownHelp()
 }
 
 // vRunBin runs the real binary as a separate process.
